@@ -22,9 +22,14 @@ func cfgs() []hn.GateCfg {
 		{Broker: false, IDs: []string{"a", "b", "c"}},
 		{Broker: true, IDs: []string{"a", "b", "c", "d", "e"}},
 		{Broker: false, IDs: []string{"a", "b", "c", "d", "e"}},
+		// a sweep, FlushAll or Close that fails part-way (the Broker's Send or the composition fails at its
+		// k-th call) and is then retried: what was already emitted must not be emitted again
+		{Broker: true, SendFail: 1, IDs: []string{"a", "b", "c"}},
+		{Broker: true, SendFail: 2, IDs: []string{"a", "b", "c"}},
+		{Broker: true, ComposeFail: 2, IDs: []string{"a", "b", "c"}},
 	}
 	for i := range out {
-		out[i].Name = fmt.Sprintf("broker=%v ids=%d", out[i].Broker, len(out[i].IDs))
+		out[i].Name = fmt.Sprintf("broker=%v ids=%d sendFail@%d composeFail@%d", out[i].Broker, len(out[i].IDs), out[i].SendFail, out[i].ComposeFail)
 	}
 	return out
 }
@@ -154,11 +159,11 @@ func main() {
 	})
 }
 
-const seqRule = "BFS over all histories up to the depth bound of {event(id), flush event, event with an already cancelled context, clock +1ms, clock +Expiration+1ms, FlushAll, Close} on the real gated.Filter with 3 ids (full alphabet) and 5 ids (0..5 groups open at once), Broker set / nil. After every successful Process at virtual time T a probe on a replayed copy must find no group whose expiry lies before T, the expired groups must have reached the Sender oldest first (or been dropped with no Broker); after a successful FlushAll / Close the probe must find nothing and every previously held group must have been emitted exactly once."
+const seqRule = "BFS over all histories up to the depth bound of {event(id), flush event, event with an already cancelled context, clock +1ms, clock +Expiration+1ms, FlushAll, Close} on the real gated.Filter with 3 ids (full alphabet) and 5 ids (0..5 groups open at once), Broker set / nil, and with the Broker or the composition failing at its k-th call (a part-way failure followed by a retry). After every successful Process at virtual time T a probe on a replayed copy must find no group whose expiry lies before T, the expired groups must have reached the Sender oldest first (or been dropped with no Broker); after a successful FlushAll / Close the probe must find nothing and every previously held group must have been emitted exactly once."
 
 func unusedMain() {
 	hk.Main(seqmc.Check(harness,
-		"BFS over all histories up to the depth bound of {event(id), flush event, clock +1ms, clock +Expiration+1ms, FlushAll, Close} on the real gated.Filter with 3 ids (full alphabet) and 5 ids (0..5 groups open at once), Broker set / nil. After every successful Process at virtual time T a probe on a replayed copy must find no group whose expiry lies before T, the expired groups must have reached the Sender oldest first (or been dropped with no Broker); after a successful FlushAll / Close the probe must find nothing and every previously held group must have been emitted exactly once.",
+		"BFS over all histories up to the depth bound of {event(id), flush event, clock +1ms, clock +Expiration+1ms, FlushAll, Close} on the real gated.Filter with 3 ids (full alphabet) and 5 ids (0..5 groups open at once), Broker set / nil, and with the Broker or the composition failing at its k-th call (a part-way failure followed by a retry). After every successful Process at virtual time T a probe on a replayed copy must find no group whose expiry lies before T, the expired groups must have reached the Sender oldest first (or been dropped with no Broker); after a successful FlushAll / Close the probe must find nothing and every previously held group must have been emitted exactly once.",
 		[]string{"the clock is the filter's NowFunc, owned by the harness", "depth 6 (quick) / 8 (thorough)"},
 		150*time.Second, 45*time.Minute))
 }
